@@ -140,6 +140,16 @@ def sock_cases(tier, rnd):
             ops += [["wfail", 1 + i % 2], ["net", "accept", 0.1],
                     ["send", S.KINDS[i % 3], pol, "inline"], ["adv", 3.0], ["q"]]
         out.append(ops)
+    # --- an exact copy of the failed command is waiting behind it (the user pressed twice):
+    #     the failed one is still re-sent first, the copy is a message of its own
+    for pol in ("idem", "long"):
+        for n in (1, 2):
+            out.append([["net", "accept", 0.3, n], ["net", "accept", 0.2], ["fin"], ["q"],
+                        ["send", "zone_ctrl", pol, "inline"], ["send", "ac_ctrl", pol, "inline"],
+                        ["send_again", "zone_ctrl", pol, "inline"], ["adv", 4.0]])
+            out.append([["q"], ["wfail", n], ["net", "accept", 0.2],
+                        ["send", "zone_ctrl", pol, "t1"], ["send", "ac_ctrl", pol, "t2"],
+                        ["send_again", "zone_ctrl", pol, "t3"], ["adv", 4.0]])
     # --- two messages: the retried one must go first on the next connection
     for n in (1, 2, 3):
         out.append([["q"], ["wfail", n], ["net", "accept", 0.5],
